@@ -97,6 +97,7 @@ func init() {
 			v := in.concretize(t, "verif_concrete", in.cfg.ConcLimit)
 			return in.constLike(t, v)
 		},
+		"verif_native":      func(in *Interp, fr *frame, a []Value) Value { return in.tc.tFalse },
 		"verif_is_symbolic": func(in *Interp, fr *frame, a []Value) Value { return in.tc.tTrue },
 		"verif_timers": func(in *Interp, fr *frame, a []Value) Value {
 			n := 0
@@ -200,6 +201,10 @@ func (in *Interp) nondet(kind string, w int) *Term {
 	seq := len(in.run.nondets)
 	t := in.tc.Var(fmt.Sprintf("nd%d_%s", seq, kind), w)
 	in.run.nondets = append(in.run.nondets, nondetVar{t: t, kind: kind})
+	if w == WInt {
+		// machine integers: the Int-sorted variable ranges over int64
+		in.sol.Assert(in.tc.And(in.tc.Le(in.tc.IntC(-1<<63), t, true), in.tc.Le(t, in.tc.IntC(1<<63-1), true)))
+	}
 	return t
 }
 
